@@ -20,6 +20,8 @@ type G struct {
 	r     *Rng
 	names []string
 	kinds map[string]int // element kinds used in the current case
+	swXid    uint32
+	swRecipe string      // Gallina term of the last switch-side value ("" when it has no recipe model)
 	late  []func()       // nested actions a conntrack action still has to receive, after it was handed to its container
 }
 
